@@ -39,9 +39,6 @@ def insitu_matrix(ctx):
     return runs
 
 
-SCREENING_KEY = "C02:screening-iterations-compound"
-
-
 def insitu(ctx):
     """Solver level: 'whenever the update from step n to n+1 is answered' on the updates of REAL runs (wrappers on TDGLSolver.update and
     solve_for_psi_squared; z, w recomputed from the documented formulas in exact arithmetic; TLC validates with the PsiUpdateTrace clauses)."""
@@ -70,7 +67,6 @@ def insitu(ctx):
         accepted |= {n0 + a for a in acc}
     ctx.cov["traces_validated_against_impl"] += len(accepted)
     rejected = [n for n in range(len(norm)) if n not in accepted]
-    reproduced = set()
     if rejected:
         clauses = {}
         for n0 in range(0, len(rejected), B):
@@ -80,32 +76,18 @@ def insitu(ctx):
                 if line.startswith('<<"CLAUSES"'):
                     v = core.parse_tla_value(line)
                     clauses[sub[v[1] - 1]] = [c for c, bit in zip(CLAUSES, v[2:]) if bit]
-        first_ok = {(owner[n], traces[n]["label"]) for n in accepted if traces[n]["family"] == "insitu-first-answered-attempt"}
         groups = {}
         for n in rejected:
             t = traces[n]
             cl = ",".join(clauses.get(n, ["?"]))
-            compound = (t["level"] == "update" and t["iterations"] > 1 and (owner[n], t["label"]) in first_ok
-                        and set(clauses.get(n, [])) <= {"AnsweredImpliesEquation", "AnsweredIsPhysicalBranch"})
-            key = f"{SCREENING_KEY}:{owner[n]}" if compound else f"C02:{cl}:insitu:{t['family']}:{owner[n]}"
-            groups.setdefault(key, []).append(n)
+            groups.setdefault(f"C02:{cl}:insitu:{t['family']}:{owner[n]}", []).append(n)
         for key, ns in sorted(groups.items()):
             t = traces[ns[0]]
-            if key.startswith(SCREENING_KEY):
-                reproduced.add(key)
-                what = (f"C02 AnsweredImpliesEquation at solver level: with screening, {len(ns)} answered updates of run '{owner[ns[0]]}' (first: {t['label']}, "
-                        f"{t['iterations']} screening iterations, dt {t['params']['dt']}) do not satisfy psi' + z|psi'|^2 = w for the psi^n, mu^n handed to update "
-                        f"(residual > 1e-9 relative; the first iteration's answer does): every screening iteration applies the Euler step to the "
-                        f"PREVIOUS iteration's psi and mu (update() overwrites psi, mu inside the loop) with |psi^n|^2 of the original state")
-            else:
-                what = (f"{key}: {len(ns)} in-situ traces of run '{owner[ns[0]]}' rejected by PsiUpdateTrace; first: {t['label']} level={t['level']} retried={t['retried']} "
-                        f"iterations={t['iterations']} dt={t['params']['dt']} worst residual quanta={t['worst']}")
+            what = (f"{key}: {len(ns)} in-situ traces of run '{owner[ns[0]]}' rejected by PsiUpdateTrace; first: {t['label']} level={t['level']} retried={t['retried']} "
+                    f"screening iterations={t['iterations']} dt={t['params']['dt']} worst residual quanta={t['worst']}")
             ctx.violation(key, what, {"module": "PsiUpdateTrace", "run": owner[ns[0]], "steps": [traces[n]["label"] for n in ns[:20]],
                                       "observation_first_sites": traces[ns[0]]["ev"][:5]})
     ctx.cov["insitu"]["accepted"] = len(accepted)
-    ctx.cov["insitu"]["screening_finding_reproduced_on"] = sorted(reproduced)
-    if any(f.get("status") == "open" and f["key"].startswith(SCREENING_KEY) for f in ctx.findings) and not reproduced and not ctx.violations:
-        raise core.MachineryFailure(f"open finding {SCREENING_KEY} no longer reproduces on the real code: update known_findings.json")
     upd = [n for n in sorted(accepted) if traces[n]["level"] == "update"]
     if upd:
         n = upd[len(upd) // 2]
